@@ -1,0 +1,31 @@
+//go:build verif
+
+package car
+
+// Verification-only exports (build tag "verif"): give the external correspondence
+// harness access to internal packages without changing any behaviour.
+
+import (
+	"io"
+
+	"github.com/ipld/go-car/v2/internal/carv1"
+)
+
+// VerifCarV1Reader is the internal CARv1 reader.
+type VerifCarV1Reader = carv1.CarReader
+
+// VerifCarV1Header is the internal CARv1 header.
+type VerifCarV1Header = carv1.CarHeader
+
+// VerifNewCarV1Reader constructs the internal CARv1 reader with explicit limits.
+func VerifNewCarV1Reader(r io.Reader, zeroLenAsEOF bool, maxHeader, maxSection uint64) (*carv1.CarReader, error) {
+	return carv1.NewCarReaderWithoutDefaults(r, zeroLenAsEOF, maxHeader, maxSection)
+}
+
+// VerifLoadCar is the internal carv1.LoadCar.
+func VerifLoadCar(s carv1.Store, r io.Reader) (*carv1.CarHeader, error) {
+	return carv1.LoadCar(s, r)
+}
+
+// VerifHeaderMatches is carv1.CarHeader.Matches.
+func VerifHeaderMatches(a, b carv1.CarHeader) bool { return a.Matches(b) }
